@@ -367,6 +367,66 @@ def r10f(ctx, rep):
                           (', '.join(from_pos) or 'something other than LogEntry.index'))
 
 
+def r10g(ctx, rep):
+    rep.rule('R10g', 'a vote logged after its term bump is recovered: handle_request_vote writes TermAndVote{T, None} when it adopts a higher '
+                     'term and TermAndVote{T, Some(candidate)} when it grants the vote, so in RaftRecoveryState::from_entries a record whose '
+                     'term is NOT greater than the recovered term can still set the recovered vote (the first vote of the term). With the '
+                     'greater-term edge of the TermAndVote arm cut, a write to RaftRecoveryState.voted_for stays reachable. A replay that '
+                     'treats the second record as a duplicate restarts the node in term T with no vote, and it votes again')
+    cr = ctx.crate('tensor_chain')
+    f = rep.require_fn('R10g', cr, 'tensor_chain::raft_wal::RaftRecoveryState::from_entries')
+    if f is None:
+        return
+    RS = 'tensor_chain::raft_wal::RaftRecoveryState.'
+    defs = A.Defs(f)
+    ws = [w for w in A.field_writes(f) if w[2] == RS + 'voted_for']
+    calls_w = [c for c in A.calls(f) if re.search(r'clone_from$|Option::<T>::(replace|insert)$', c.resolved) and c.args and c.args[0][0] != 'k' and
+               any(x == RS + 'voted_for' for x in A.place_fields(c.args[0][1]) + A.origin_fields(f, c.args[0][1][0], defs)[0])]
+    # only what the TermAndVote arm writes: the value comes out of the record's own voted_for field
+    def from_record(op):
+        return op is not None and op[0] != 'k' and any(x.endswith('RaftWalEntry.voted_for') for x in A.backward_slice(f, [op], defs).fields)
+    ws = [w for w in ws if w[4] and any(from_record(o) for o in A.rvalue_operands(w[4]))]
+    calls_w = [c for c in calls_w if len(c.args) > 1 and from_record(c.args[1])]
+    wblocks = {w[0] for w in ws} | {c.bb for c in calls_w}
+    if not rep.floor('R10g', 'writes of the recovered vote in from_entries', len(wblocks), 1):
+        return
+    rep.analysed(f)
+    cut = set()
+    for i, b in enumerate(f.bbs):
+        if b['cleanup'] or b['t'][0] != 'sw':
+            continue
+        l = lib.switch_local(f, i)
+        d = A.single_def(defs, l) if l is not None else None
+        if not d or d[2] != 'st' or d[3][1][0] != 'bin' or d[3][1][1] not in ('Gt', 'Lt', 'Ge', 'Le'):
+            continue
+        rv = d[3][1]
+        sides = [A.backward_slice(f, [rv[2]], defs), A.backward_slice(f, [rv[3]], defs)]
+        rec = [any(x.endswith('RaftWalEntry.term') or x.endswith('TermAndVote.term') for x in sl.fields) for sl in sides]
+        cur = [any(x == RS + 'current_term' for x in sl.fields) for sl in sides]
+        if not ((rec[0] and cur[1]) or (rec[1] and cur[0])):
+            continue
+        t = b['t']
+        # the edge on which record.term > current_term
+        rec_left = rec[0] and cur[1]
+        greater_true = (rv[1] == 'Gt' and rec_left) or (rv[1] == 'Lt' and not rec_left)
+        if rv[1] in ('Gt', 'Lt'):
+            zero = dict(t[2]).get('0')
+            for s_ in set(A.succs(f, i)):
+                is_true = (s_ != zero)
+                if is_true == greater_true:
+                    cut.add((i, s_))
+    if not cut:
+        rep.unresolved_instance('R10g', f, 'term test', 'comparison of the record term with the recovered term not recognised')
+        return
+    R = A.reachable(f, [0], cut_edges=cut)
+    if wblocks & R:
+        rep.holds('R10g', f, 'same-term vote', 'a record of the current term can still set the vote')
+    else:
+        rep.violation('R10g', f, 'same-term-vote-dropped', f.loc(),
+                      'replay sets the recovered vote only from records of a greater term: the vote record that follows a term-bump record of '
+                      'the same term is ignored, and the restarted node has forgotten the vote it granted')
+
+
 def run(ctx, rep):
     raft_rules.r01a(ctx, rep)
     r10a(ctx, rep)
@@ -374,6 +434,7 @@ def run(ctx, rep):
     r10d(ctx, rep)
     r10e(ctx, rep)
     r10f(ctx, rep)
+    r10g(ctx, rep)
     wal_rules.r02b(ctx, rep, ['RaftWal'])
     wal_rules.r02e(ctx, rep, ['RaftWal'])
     wal_rules.r02f(ctx, rep, ['RaftWal'])
